@@ -251,6 +251,7 @@ struct MArch {
     slots_used: u32,
     slots_cap: u32,
     names: Vec<String>,
+    ghosts: Vec<String>, // names removed or renamed away through this handle
 }
 
 struct MFile {
@@ -542,6 +543,10 @@ impl<'a> St<'a> {
         if n > 0 && r == 10 {
             return present[(k / 16 % n) as usize].replace('\\', "/");
         }
+        let ghosts: Vec<String> = ai.map(|i| self.archs[i].ghosts.clone()).unwrap_or_default();
+        if !ghosts.is_empty() && (r == 11 || r == 15) {
+            return ghosts[(k / 16) as usize % ghosts.len()].clone();
+        }
         match r {
             11 => "no\\such\\file.txt".to_string(),
             12 => String::new(),
@@ -699,7 +704,7 @@ impl<'a> St<'a> {
                         self.live_ok += 1;
                         let names = self.path_names.get(&path).cloned().unwrap_or_default();
                         let cap = a.header().hash_table_size;
-                        self.archs.push(MArch { id, path, gone: Gone::No, shadow: Shadow::Ro(a), mutable: false, slots_used: 0, slots_cap: cap, names });
+                        self.archs.push(MArch { id, path, gone: Gone::No, shadow: Shadow::Ro(a), mutable: false, slots_used: 0, slots_cap: cap, names, ghosts: vec![] });
                         let i = self.archs.len() - 1;
                         self.register("SFileOpenArchive", id, Kind::Arch, i);
                     }
@@ -746,7 +751,7 @@ impl<'a> St<'a> {
                 self.live_ok += 1;
                 let names = self.path_names.get(&path).cloned().unwrap_or_default();
                 let cap = a.header().hash_table_size;
-                self.archs.push(MArch { id, path, gone: Gone::No, shadow: Shadow::Ro(a), mutable: false, slots_used: 0, slots_cap: cap, names });
+                self.archs.push(MArch { id, path, gone: Gone::No, shadow: Shadow::Ro(a), mutable: false, slots_used: 0, slots_cap: cap, names, ghosts: vec![] });
                 let i = self.archs.len() - 1;
                 self.register("SFileCreateArchive", id, Kind::Arch, i);
             }
@@ -811,7 +816,7 @@ impl<'a> St<'a> {
             Shadow::Gone => 0,
         };
         self.c.count(if mutable { "mutable_archives_created" } else { "create2_readonly_fallback" }, 1);
-        self.archs.push(MArch { id, path, gone: Gone::No, shadow, mutable, slots_used: 2, slots_cap: cap, names: vec![] });
+        self.archs.push(MArch { id, path, gone: Gone::No, shadow, mutable, slots_used: 2, slots_cap: cap, names: vec![], ghosts: vec![] });
         let i = self.archs.len() - 1;
         self.register("SFileCreateArchive2", id, Kind::Arch, i);
     }
@@ -1667,12 +1672,12 @@ impl<'a> St<'a> {
                 self.fresh += 1;
                 format!("add\\n{}.dat", self.fresh)
             }
-            5 => self.name_for(ai, p.x[0] / 8 * 16),
+            5 => self.name_for(ai, (p.x[0] / 8).wrapping_mul(16)),
             6 => long_name(),
             _ => String::new(),
         };
-        let name2 = if p.x[2] % 4 == 0 { self.name_for(ai, p.x[2] / 4 * 16) } else { format!("ren\\r{}.dat", p.x[2] % 1000) };
-        let existing = self.name_for(ai, p.x[0] / 8 * 16 + (p.x[0] % 11).min(8));
+        let name2 = if p.x[2] % 4 == 0 { self.name_for(ai, (p.x[2] / 4).wrapping_mul(16)) } else { format!("ren\\r{}.dat", p.x[2] % 1000) };
+        let existing = self.name_for(ai, (p.x[0] / 8).wrapping_mul(16).wrapping_add((p.x[0] % 11).min(8)));
         let flags = [0u32, 0, 0x0001_0000, 0x0003_0000, 0x8000_0000, 0x8001_0000][(p.x[3] % 6) as usize];
         let comp = [0u32, 0x02, 0x10, 0x12, 0x20, 0xFF, 0, 0x02][((p.x[3] >> 8) % 8) as usize];
         let null = p.x[3] >> 16 & 63 == 0;
@@ -1765,9 +1770,13 @@ impl<'a> St<'a> {
                         a.names.push(name);
                     }
                 }
-                F::RemoveFile => a.names.retain(|n| !n.eq_ignore_ascii_case(&existing.replace('/', "\\"))),
+                F::RemoveFile => {
+                    a.names.retain(|n| !n.eq_ignore_ascii_case(&existing.replace('/', "\\")));
+                    a.ghosts.push(existing.clone());
+                }
                 F::RenameFile => {
                     a.names.retain(|n| !n.eq_ignore_ascii_case(&existing.replace('/', "\\")));
+                    a.ghosts.push(existing.clone());
                     a.names.push(name2);
                 }
                 F::CompactArchive => {
@@ -1893,6 +1902,11 @@ fn run_history(c: &mut Case, idx: u64, plan: &[PlanOp], exact: bool, miri: bool,
         }
     }
     st.sweep();
+    if std::env::var_os("C19_TRACE").is_some() {
+        for t in &st.trace {
+            eprintln!("C19-TRACE {t}");
+        }
+    }
     let (live_ok, invalid, poisoned, n) = (st.live_ok, st.invalid_calls, st.poisoned, st.trace.len());
     drop(st);
     c.count("calls", n as u64);
@@ -1906,7 +1920,7 @@ fn run_history(c: &mut Case, idx: u64, plan: &[PlanOp], exact: bool, miri: bool,
 
 // ------------------------------------------------------------------ scripted probes ----
 
-const NPROBE: u64 = 13;
+const NPROBE: u64 = 14;
 
 fn probe_plan(k: u64) -> (&'static str, Vec<PlanOp>) {
     let z = [0u32; 4];
@@ -1979,6 +1993,7 @@ fn probe_plan(k: u64) -> (&'static str, Vec<PlanOp>) {
         }
         10 => ("enumerate-every-fixture", (0..7).flat_map(|i| vec![op(F::OpenArchive, HSel::Null, [i, 1, 0, 0]), op(F::EnumAll, HSel::Live(i), z), op(F::EnumFiles, HSel::Live(i), [1, 2, 0, 0]), op(F::EnumFiles, HSel::Live(i), [0, 1, 0, 0])]).collect()),
         11 => ("long-name-through-every-name-buffer", vec![open_a, op(F::OpenFileEx, HSel::Live(0), [8, 1, 0, 0]), op(F::GetFileName, HSel::Live(0), [1, 0, 0, 0]), op(F::ReadFile, HSel::Live(0), [6, 1, 0, 0]), op(F::HasFile, HSel::Live(0), [13, 1, 0, 0]), op(F::FindFirstFile, HSel::Live(0), [22, 1, 0, 0]), op(F::EnumAll, HSel::Live(0), z)]),
+        13 => ("hasfile-after-compact-and-remove-on-mutable", vec![mk_mut, op(F::AddFileEx, HSel::Live(0), [0, 2, 1, 0x0001_0600]), op(F::CompactArchive, HSel::Live(0), z), op(F::HasFile, HSel::Live(0), [0, 1, 0, 0]), op(F::RemoveFile, HSel::Live(0), [0, 0, 1, 0x0001_0000]), op(F::HasFile, HSel::Live(0), [11, 1, 0, 0]), op(F::OpenFileEx, HSel::Live(0), [11, 2, 1, 0])]),
         _ => ("special", vec![]),
     }
 }
